@@ -410,6 +410,12 @@ func parseContractFile(path string, pkgPath string) ([]*Contract, error) {
 			cur.ArgNames = strings.Fields(rest)
 		case "assumes":
 			cur.Assumes = append(cur.Assumes, rest)
+		case "ghost":
+			f := strings.SplitN(rest, " ", 2)
+			if len(f) != 2 {
+				return nil, fail(fmt.Errorf("ghost <name> <sort>"))
+			}
+			cur.Vars = append(cur.Vars, LemmaVar{Name: f[0], Sort: strings.TrimSpace(f[1])})
 		case "var":
 			f := strings.SplitN(rest, " ", 2)
 			if len(f) != 2 {
